@@ -87,7 +87,22 @@ def prove(pc, goal, timeout_ms=20000, tier='quick', want_model=True):
     return prove1(pc, goal, timeout_ms, tier, want_model)
 
 
+_proved_cache = {}
+
+
 def prove1(pc, goal, timeout_ms=20000, tier='quick', want_model=True):
+    """memoised on (hypotheses, goal): paths explored by re-execution re-emit the obligations stated before a fork"""
+    key = (tuple(sorted(f.get_id() for f in pc)), goal.get_id(), tier)
+    hit = _proved_cache.get(key)
+    if hit is not None:
+        return Verdict('proved', None, 0.0, hit[0])
+    v = _prove1(pc, goal, timeout_ms, tier, want_model)
+    if v.status == 'proved':
+        _proved_cache[key] = (v.backend, list(pc), goal)
+    return v
+
+
+def _prove1(pc, goal, timeout_ms=20000, tier='quick', want_model=True):
     if z3.is_false(z3.simplify(goal)):
         # the goal is plainly false: it is refuted as soon as the hypotheses are satisfiable; solvers rarely answer sat
         # on quantified hypotheses, so decide satisfiability on their quantifier-free part (a superset of models)
@@ -106,6 +121,16 @@ def prove1(pc, goal, timeout_ms=20000, tier='quick', want_model=True):
             return Verdict('proved', None, (time.time() - t0) * 1000, 'z3-5.1 (hypotheses contradictory)')
     fs = list(pc) + [z3.Not(goal)]
     t0 = time.time()
+    # first with the quantifier-free hypotheses only (fewer hypotheses: a proof from them is a proof from all);
+    # quantified layout facts that the goal does not need otherwise distract the solver for tens of seconds
+    from .paths import _has_quantifier
+    qf = [f for f in pc if not _has_quantifier(f)]
+    if len(qf) != len(pc) and not _has_quantifier(goal):
+        s1 = _solver(min(3000, timeout_ms))
+        s1.add(*(qf + [z3.Not(goal)]))
+        if s1.check() == z3.unsat:
+            return Verdict('proved', None, (time.time() - t0) * 1000, 'z3-5.1 (from the quantifier-free hypotheses)') if tier != 'thorough' \
+                else _second_opinion(Verdict('proved', None, (time.time() - t0) * 1000, 'z3-5.1'), qf + [z3.Not(goal)])
     s = _solver(timeout_ms)
     s.add(*fs)
     r = s.check()
@@ -117,6 +142,14 @@ def prove1(pc, goal, timeout_ms=20000, tier='quick', want_model=True):
     if r == z3.unsat:
         v = Verdict('proved', None, ms, 'z3-5.1')
         if tier == 'thorough':
+            return _second_opinion(v, fs)
+        return v
+    return _after_z3(r, s, fs, ms, timeout_ms, tier, want_model)
+
+
+def _second_opinion(v, fs):
+    if True:
+        if True:
             r2, ms2 = cvc5_check(fs, 60)
             v.ms += ms2
             if r2 == 'unsat':
@@ -135,6 +168,9 @@ def prove1(pc, goal, timeout_ms=20000, tier='quick', want_model=True):
                 else:
                     v.backend = 'z3-5.1 (cvc5, z3-4.8.12 unknown)'
         return v
+
+
+def _after_z3(r, s, fs, ms, timeout_ms, tier, want_model):
     if r == z3.sat:
         return Verdict('refuted', s.model() if want_model else None, ms, 'z3-5.1')
     # unknown: other back ends
